@@ -15,6 +15,7 @@ import CbiVerif.Drv.CodeBase
 import CbiVerif.Drv.Order
 import CbiVerif.Drv.Fortran
 import CbiVerif.Drv.C03
+import CbiVerif.Drv.Include
 /-! Native JSON-lines driver: one request object per line, one reply per line.
 Each area registers its ops in `CbiVerif/Drv/<Area>.lean`. -/
 open Lean
@@ -35,7 +36,8 @@ def handlerTable : List (String × (Json → Json)) :=
   CbiVerif.Drv.CodeBase.handlers ++
   CbiVerif.Drv.Order.handlers ++
   CbiVerif.Drv.Fortran.handlers ++
-  CbiVerif.Drv.C03.handlers
+  CbiVerif.Drv.C03.handlers ++
+  CbiVerif.Drv.Include.handlers
 
 def handle (j : Json) : Json :=
   match j.getObjValAs? String "op" with
